@@ -193,6 +193,56 @@ def run(E: Engine, rep: Report, tier: str) -> dict:
             v = n.value
             ok = isinstance(v, ast.Call) and (dotted(v.func) or "") in ("copy.deepcopy", "deepcopy") and norm(v.args[0]) == "backend_options"
     rep.check(ok, "SHARED", "BackendConfig.__init__|options-deep-copied", "the stored options are a deep copy of the arguments (two configs built from the same mutable arguments do not share them)", "BackendConfig no longer deep-copies its options: configs built from the same mutable argument (array, list, another config's options) share and can change each other's state", E.where(bc))
+    # ------------------------------------------------ register decoders: no key dropped on a path
+    from .. import sym as _sym
+    from .symutil import S as _S, branches as _branches
+
+    want_keys = {"_deserialize_register": {"name", "x", "y"}, "_deserialize_register3d": {"name", "x", "y", "z"}}
+    for fn_name, want in want_keys.items():
+        f_ = E.fn("pulser.json.abstract_repr.deserializer." + fn_name)
+        r_ = _S(E, f_).ret
+        leaves_ = list(_branches(r_))
+        if not leaves_:
+            raise AnalysisError(f"anchor: {fn_name} has no returned value")
+        for i_, (conds_, leaf_) in enumerate(leaves_):
+            got = {t[2][1] for t in _sym.subterms(leaf_) if t[0] == "idx" and t[2][0] == "const" and isinstance(t[2][1], str) and t[1][0] == "elem"}
+            kind_ = "with-layout" if any(x == ("name", "layout") for x in conds_) else "without-layout" if any(x == ("not", ("name", "layout")) for x in conds_) else f"path{i_}"
+            rep.check(want <= got, "TABLE", f"{fn_name}|{kind_}|every-qubit-key-consumed", f"the returned register depends on {sorted(want)} of every qubit entry",
+                      f"{fn_name} ({kind_}): the returned register does not depend on {sorted(want - got)} of the qubit entries (it is built from {sorted(got)} only): the decoded register loses that field (e.g. the qubit IDs fall back to q0, q1, ...)", E.where(f_))
+    # ------------------------------------------------------------ REFLECT
+    # class-level private attributes are hooks a base class reads (often reflectively, with a default that hides a
+    # misspelt name: getattr(cls, "_operator_type", OperatorRepr)); each one must be read under exactly that name
+    loads: set = set()
+    reflective: dict[str, list] = {}
+    declared: set = set()
+    for m in P.modules.values():
+        for n in ast.walk(m.tree):
+            if isinstance(n, ast.Attribute):
+                (loads if isinstance(n.ctx, ast.Load) else declared).add(n.attr)
+            if isinstance(n, ast.Call) and isinstance(n.func, ast.Name) and n.func.id in ("getattr", "hasattr") and len(n.args) >= 2 and isinstance(n.args[1], ast.Constant) and isinstance(n.args[1].value, str):
+                reflective.setdefault(n.args[1].value, []).append((m, n))
+    for c in P.classes.values():
+        declared |= set(c.methods) | set(c.fields)
+        for st_ in c.node.body:
+            names = []
+            if isinstance(st_, ast.Assign):
+                names = [t.id for t in st_.targets if isinstance(t, ast.Name)]
+            elif isinstance(st_, ast.AnnAssign) and isinstance(st_.target, ast.Name):
+                names = [st_.target.id]
+                declared.add(st_.target.id)
+                if st_.value is None:
+                    names = []
+            declared |= set(names)
+            for nm_ in names:
+                if nm_.startswith("_") and not nm_.startswith("__"):
+                    rep.check(nm_ in loads or nm_ in reflective, "REFLECT", f"{c.name}.{nm_}|class-hook-is-read", "the class-level attribute is read somewhere under this name",
+                              f"{c.qualname} sets the class attribute `{nm_}`, but nothing reads an attribute of that name (neither `.{nm_}` nor getattr(..., '{nm_}')): the hook it was meant to fill was renamed, and the reader's default silently applies", f"{c.module.relpath}:{st_.lineno} ({c.name})")
+    for nm_, sites in sorted(reflective.items()):
+        for m, n in sites:
+            if len(n.args) == 3 or n.func.id == "hasattr":
+                rep.check(nm_ in declared, "REFLECT", f"{m.name.split('.')[-1]}|getattr|{nm_}|declared", "the reflectively read name is declared by some class",
+                          f"getattr/hasattr(..., '{nm_}') with a fallback, but no class declares `{nm_}`: the fallback always applies", f"{m.relpath}:{n.lineno}")
+    rep.floor("REFLECT", 14)
     # ------------------------------------------------------------- SHARED
     st = _shared(E, rep)
     rep.floor("SHARED", 10)
@@ -352,6 +402,10 @@ def _results(E: Engine, rep: Report) -> None:
     rep.check(wk == props, "TABLE", "Results|keys-written=schema", f"{sorted(wk)}", f"Results writes {sorted(wk)} but the schema declares {sorted(props)}", SCH_DIR + "results-schema.json")
 
 
+_FIELD_ARG_MODULES = ("pulser.noise_model", "pulser.channels", "pulser.devices._device_datacls", "pulser_simulation.simconfig", "pulser.backend", "pulser.register", "pulser.result")
+_CONVERTERS = ("tuple", "set", "list", "float", "int", "cast", "_deserialize_parameter", "_convert_complex", "deepcopy")
+
+
 def _swapped_arguments(E: Engine, rep: Report) -> dict:
     """A positional argument whose name is the name of a *different* parameter of the callee."""
     P = E.P
@@ -397,7 +451,74 @@ def _swapped_arguments(E: Engine, rep: Report) -> dict:
                 rep.violation("SWAP", key, f"call `{norm(n)[:120]}` passes {[t for _i, t in bad]} in the positions of parameters {[params[i] for i, _t in bad]} of {f.short}{tuple(params)}: arguments swapped", E.where(caller, n))
             else:
                 rep.ok("SWAP", f"{caller.short}|{f.short}|L{len(names)}|{'-'.join(t or '_' for t in names)[:60]}", "positional arguments named like parameters are in their positions", E.where(caller, n), nontrivial=True)
-    return {"call_sites_with_named_positionals": n_sites, "swapped": n_viol}
+    # FIELD-ARG: an argument that *names* field t of a serialisable dataclass (a name, an attribute `.t`, a key
+    # `d["t"]`, possibly through a converter) is bound to a parameter p that is a different field of the same class
+    univ: list[tuple[str, set]] = []
+    for c in P.classes.values():
+        if not c.module.name.startswith(_FIELD_ARG_MODULES):
+            continue
+        try:
+            fs = {f.name for _k, f in P.dataclass_fields(c)}
+        except Exception:
+            fs = set()
+        if len(fs) >= 2:
+            univ.append((c.name, fs))
+    if len(univ) < 8:
+        raise AnalysisError("anchor: fewer than 8 serialisable dataclasses found for the FIELD-ARG rule")
+
+    def named(a: ast.AST):
+        if isinstance(a, ast.Call) and a.args and isinstance(a.func, ast.Name) and a.func.id in _CONVERTERS:
+            a = a.args[-1] if a.func.id == "cast" else a.args[0]
+        if isinstance(a, ast.Name):
+            return a.id
+        if isinstance(a, ast.Attribute):
+            return a.attr
+        if isinstance(a, ast.Subscript) and isinstance(a.slice, ast.Constant) and isinstance(a.slice.value, str):
+            return a.slice.value
+        return None
+
+    n_field = 0
+    seen2 = set()
+    for callee_q, sites in sorted(idx.items()):
+        if P.functions.get(callee_q) is None:
+            continue
+        for caller, e in sites:
+            n = e.node
+            if not isinstance(n, ast.Call) or id(n) in seen2 or len(e.callees) != 1:
+                continue
+            seen2.add(id(n))
+            cal, mode = e.callees[0]
+            f = cal.innermost()
+            if cal.binding:
+                continue
+            params = [x.arg for x in f.node.args.posonlyargs + f.node.args.args]
+            if (mode in ("bound", "ctor") or (f.cls is not None and f.kind == "classmethod")) and params:
+                params = params[1:]
+            pairs = []
+            for i, a in enumerate(n.args):
+                if isinstance(a, ast.Starred):
+                    break
+                if i < len(params):
+                    pairs.append((params[i], a))
+            pairs += [(k.arg, k.value) for k in n.keywords if k.arg]
+            for pn, a in pairs:
+                t = named(a)
+                if t is None:
+                    continue
+                t_ = alias.get(t.lstrip("_"), t.lstrip("_"))
+                p_ = alias.get(pn.lstrip("_"), pn.lstrip("_"))
+                us = [u for u, fs in univ if t_ in fs and p_ in fs]
+                if not us:
+                    continue
+                n_field += 1
+                key = f"{caller.short}|{f.short}|{pn}"
+                if t_ == p_:
+                    rep.ok("SWAP", key + "|field-arg", f"parameter `{pn}` receives the value named `{t}`", E.where(caller, n), nontrivial=True)
+                else:
+                    rep.violation("SWAP", key + "|field-arg", f"call `{norm(n)[:100]}` binds parameter `{pn}` of {f.short} to `{norm(a)[:60]}`, which names the different field `{t_}` of {us[0]}: wrong field forwarded", E.where(caller, n))
+    if n_field < 60:
+        raise AnalysisError(f"FIELD-ARG: only {n_field} field-named arguments found (expected >= 60)")
+    return {"call_sites_with_named_positionals": n_sites, "swapped": n_viol, "field_named_arguments": n_field}
 
 
 def _shared(E: Engine, rep: Report) -> dict:
